@@ -30,6 +30,9 @@ def targets(only):
             out.append((pid, p, "seeded/" + os.path.basename(d)))
     if only:
         out = [t for t in out if t[0] in only]
+    match = os.environ.get("SELFTEST_MATCH")
+    if match:
+        out = [t for t in out if match in t[2]]
     return out
 
 
@@ -63,18 +66,29 @@ def main(only):
     if not ts:
         print("no mutants")
         return 0
-    with ThreadPoolExecutor(max_workers=int(os.environ.get("SELFTEST_PAR", "4"))) as ex:
-        res = list(ex.map(run_one, ts))
+    res = []
     missed = 0
-    for name, pid, status, info in res:
-        print("%-8s %-45s %s  %s" % (status, name, pid, info))
-        if status != "caught":
-            missed += 1
+    with ThreadPoolExecutor(max_workers=int(os.environ.get("SELFTEST_PAR", "4"))) as ex:
+        for name, pid, status, info in ex.map(run_one, ts):
+            res.append((name, pid, status, info))
+            print("%-8s %-45s %s  %s" % (status, name, pid, info), flush=True)
+            if status != "caught":
+                missed += 1
     print("selftest: %d mutants, %d not caught" % (len(res), missed))
-    # the evidence of the self-test is kept for DESIGN.md, not an evidence file of a property
-    with open(os.path.join(HERE, "selftest_last.json"), "w") as f:
-        json.dump([{"mutant": n, "property": p, "status": s, "info": i} for n, p, s, i in res],
-                  f, indent=1)
+    # the record of the self-test is kept for DESIGN.md (not an evidence file of a property);
+    # a partial run updates the entries it re-ran and keeps the others
+    path = os.path.join(HERE, "selftest_last.json")
+    old = {}
+    if os.path.exists(path):
+        try:
+            with open(path) as f:
+                old = {e["mutant"]: e for e in json.load(f)}
+        except Exception:  # pylint: disable=broad-except
+            old = {}
+    for n, p, s, i in res:
+        old[n] = {"mutant": n, "property": p, "status": s, "info": i}
+    with open(path, "w") as f:
+        json.dump([old[k] for k in sorted(old)], f, indent=1)
     return 1 if missed else 0
 
 
